@@ -75,6 +75,18 @@ type txPool struct {
 	mu  sync.Mutex
 	raw [][]byte
 	txs []*chainsim.GenTx
+	// cur holds the transactions of the block about to be executed (they sit in the mempool, i.e. were
+	// offered to CheckTx, before a proposer picks them).
+	cur [][]byte
+}
+
+func (p *txPool) setCurrent(g []*chainsim.GenTx) {
+	p.mu.Lock()
+	p.cur = p.cur[:0]
+	for _, t := range g {
+		p.cur = append(p.cur, t.Raw)
+	}
+	p.mu.Unlock()
 }
 
 func (p *txPool) add(g []*chainsim.GenTx) {
@@ -93,6 +105,9 @@ func (p *txPool) add(g []*chainsim.GenTx) {
 func (p *txPool) pickRaw(rng *rand.Rand) []byte {
 	p.mu.Lock()
 	defer p.mu.Unlock()
+	if len(p.cur) > 0 && rng.IntN(2) == 0 {
+		return p.cur[rng.IntN(len(p.cur))]
+	}
 	if len(p.raw) == 0 {
 		return nil
 	}
@@ -182,6 +197,38 @@ func runCase(c chainsim.Case, rep chainsim.Reporter, scratch string) {
 	if err != nil {
 		rep.Inconclusive("setup failed: " + err.Error())
 		return
+	}
+	// The block's own transactions are in the mempools (offered to CheckTx on the test replicas, never on
+	// the reference) while the block executes; a third of the blocks also carry copies of mempool
+	// transactions - of this block and of earlier ones - with one signature bit flipped: what a
+	// node did with the genuine bytes in CheckTx must not decide what it does with other bytes in a block.
+	var sigFlips atomic.Int64
+	h.Gen.Extra = func(g *chainsim.TxGen, height int64, base []*chainsim.GenTx) []*chainsim.GenTx {
+		pool.setCurrent(base)
+		rng := g.Rng()
+		if rng.IntN(3) != 0 {
+			return nil
+		}
+		var out []*chainsim.GenTx
+		var cands []*chainsim.GenTx
+		for _, b := range base {
+			if b.Intent == "valid" && b.Tx != nil && b.Signer != nil {
+				cands = append(cands, b)
+			}
+		}
+		for i := 0; i < 2; i++ {
+			if gt := pool.pickTx(rng); gt != nil {
+				cands = append(cands, gt)
+			}
+		}
+		for i := 0; i < 3 && len(cands) > 0; i++ {
+			v := cands[rng.IntN(len(cands))]
+			if raw := chainsim.FlipSignatureBit(v.Raw, rng.IntN(512)); raw != nil {
+				out = append(out, &chainsim.GenTx{Raw: raw, Method: v.Method, Intent: "signature-bit-flipped-copy-of-mempool-tx", Signer: v.Signer})
+				sigFlips.Add(1)
+			}
+		}
+		return out
 	}
 	var divMu sync.Mutex
 	var qdiv []string
@@ -287,6 +334,7 @@ func runCase(c chainsim.Case, rep chainsim.Reporter, scratch string) {
 	rep.Count("replica_blocks", h.Height*int64(len(h.Tests)))
 	rep.Count("epoch_transitions", int64(h.EpochTransitions))
 	rep.Count("checktx_calls", checkTxCalls.Load())
+	rep.Count("signature_flipped_copies_of_mempool_txs_in_blocks", sigFlips.Load())
 	rep.Count("estimategas_calls", estimateCalls.Load())
 	rep.Count("historical_queries", queryCalls.Load())
 	rep.Count("historical_queries_compared_with_reference", queryCompared.Load())
